@@ -164,7 +164,9 @@ func buildC10(k *c10Case, inner restful.CompressorProvider) *c10Env {
 	restful.SetCompressorProvider(env.ledger)
 	c := restful.NewContainer()
 	env.c = c
-	c.DoNotRecover(!k.Recovery)
+	if k.Recovery || k.Markers {
+		c.DoNotRecover(!k.Recovery)
+	} // else: recovery is off BY DEFAULT - the container is left as NewContainer made it
 	c.EnableContentEncoding(k.Coding != "" && !k.RouteEnc)
 	if k.CustomRec {
 		c.RecoverHandler(func(v interface{}, w http.ResponseWriter) {
@@ -322,7 +324,7 @@ var c10Stop bool
 func c10(ctx *core.Ctx) {
 	quietLogs()
 	c10Stop = false
-	ctx.Rule("crash points enumerated completely: panic in each of 2 container / 2 service / 2 route filters before and after passing control, in the handler before / between / after its writes and inside ReadEntity (a gzip-declared request body whose Read panics), in an If-condition, and (routing-failure request) in container filters and the custom error handler; x recovery {on, off} x coding {none, gzip, deflate} (container switch or route override) x provider {sync.Pool, bounded(1), custom} x entry {Dispatch, ServeHTTP} x filters writing output or not x custom (answers 503 with a header of its own) / default recover handler x now and then (in sequences) the same panicking request first from a client whose connection fails on every body write x panic value kind {pointer, string, error, runtime error, http.ErrAbortHandler, typed-nil error, typed-nil Stringer, Stringer whose String panics, restful.ServiceError by value}; the obsolete package variable restful.DoNotRecover set in every 7th case (value kinds on the sync.Pool / no-marker slice). Monitors: recover() around the entry, recording RecoverHandler, compressor ledger, probe requests replayed after every panic, Add+Remove afterwards (needs the write lock). 300 containers whose recovery switch and recover handler are set from two goroutines at once (then a panicking request). Then sequences of 20 mixed panicking/normal requests per container. Non-trivial = every crash case; distinct by the full cell.")
+	ctx.Rule("crash points enumerated completely: panic in each of 2 container / 2 service / 2 route filters before and after passing control, in the handler before / between / after its writes and inside ReadEntity (a gzip-declared request body whose Read panics), in an If-condition, and (routing-failure request) in container filters and the custom error handler; x recovery {on, off (set explicitly, or left at the default)} x coding {none, gzip, deflate} (container switch or route override) x provider {sync.Pool, bounded(1), custom} x entry {Dispatch, ServeHTTP} x filters writing output or not x custom (answers 503 with a header of its own) / default recover handler x now and then (in sequences) the same panicking request first from a client whose connection fails on every body write x panic value kind {pointer, string, error, runtime error, http.ErrAbortHandler, typed-nil error, typed-nil Stringer, Stringer whose String panics, restful.ServiceError by value}; the obsolete package variable restful.DoNotRecover set in every 7th case (value kinds on the sync.Pool / no-marker slice). Monitors: recover() around the entry, recording RecoverHandler, compressor ledger, probe requests replayed after every panic, Add+Remove afterwards (needs the write lock). 300 containers whose recovery switch and recover handler are set from two goroutines at once (then a panicking request). Then sequences of 20 mixed panicking/normal requests per container. Non-trivial = every crash case; distinct by the full cell.")
 	ctx.Assume("HandleWithFilter is excluded: the property speaks of routed dispatch",
 		"panic values are pointers so that 'the same value' is decided by identity")
 	defer func() {
